@@ -37,7 +37,11 @@ def main():
     except common.Inconclusive as e:
         print("INCONCLUSIVE property=%s %s" % (a.prop, e))
         return 2
-    except Exception:
+    except Exception as e:
+        if type(e).__name__ in ("RxUnsupported", "Unsupported"):
+            # the code under analysis uses a construct outside the encodable subset: an honest 'cannot decide'
+            print("INCONCLUSIVE property=%s the encoding does not reach this code: %s" % (a.prop, e))
+            return 2
         traceback.print_exc()
         print("HARNESS-ERROR property=%s" % a.prop)
         return 2
